@@ -41,6 +41,7 @@ var keyPairsRed = [][]string{{"k", "#x"}, {"", "true"}}
 // csv
 var csvHeaders1 = strLeaves
 var csvHeaderPairs = [][]string{{"h", "k"}, {"#x", "k"}, {"", "k"}, {" lead", "a,b"}, {"1", "true"}, {"a\"b", "é"}}
+var csvCells9 = []string{"", "a", "#x", " lead", "true", "a,b", "a\"b", "1", "é"}
 var csvCellsSmall = []string{"", "a", "#x", " lead", "a,b", "a\"b", "é"}
 
 // ---- document enumeration --------------------------------------------------------------------------
@@ -198,9 +199,12 @@ func families(quick bool) []family {
 		}},
 		{"array-d2", func(emit func(any) bool) bool { return arraysOver(ch2, 1, kids1, true, emit) }},
 		{"map-d2", func(emit func(any) bool) bool { return mapsOver(ch2, keys1Red, keyPairsRed, false, true, emit) }},
-		{"table", tables(csvHeaders1, csvHeaderPairs, strLeaves, 2, true, true)},
+		{"table", tables(csvHeaders1, nil, strLeaves, 2, true, false)},
 	}
-	if !quick {
+	if quick {
+		fams = append(fams, family{"table", tables(nil, csvHeaderPairs, csvCells9, 2, false, true)})
+	} else {
+		fams = append(fams, family{"table", tables(nil, csvHeaderPairs, strLeaves, 2, false, true)})
 		fams = append(fams, family{"table-3rows", tables(csvHeaders1[:5], csvHeaderPairs, csvCellsSmall, 3, true, true)})
 	}
 	return fams
@@ -376,7 +380,7 @@ type wit struct {
 func init() {
 	vlib.Register(&vlib.Check{
 		ID: "C14", Engine: "E2",
-		Rule:   "JSON documents over the leaves {\"\", a, #x, ' lead', true, null, 1, 'a,b', a\"b, 'a: b', '- a', é, ~ (strings), 0, 1, -1.5, true, null}: every leaf; every array of 0..K leaves (K=2 quick, 3 thorough); every map {} / one entry keyed by each of the 13 strings / entries for 4 key pairs (+2 key triples thorough); every depth-2 array (1..K children) and map (4 single keys, 2 key pairs) with at least one container child, children taken from a reduced leaf set (6 quick, 8 thorough) and all depth-1 containers over it; csv tables as arrays of flat objects: 1 column (13 headers) and 2 columns (6 header pairs) x 1..2 rows of cells from the 13 strings (thorough: also 3 rows over 7 cells). Each document is written to the json-typed stdin of `format F -> format json` for F = yaml (always), toml (top-level maps), jsonl (top-level arrays), csv (tables); stdout must decode (encoding/json, numbers as float64) to the same value. Not asserted, run for no-panic/termination only and counted: yaml top-level null, toml with null or a heterogeneous array, jsonl empty array or null line, csv empty table. non-trivial = the document contains a string leaf or key other than the plain words a/h/k (i.e. something that needs format-specific quoting)",
+		Rule:   "JSON documents over the leaves {\"\", a, #x, ' lead', true, null, 1, 'a,b', a\"b, 'a: b', '- a', é, ~ (strings), 0, 1, -1.5, true, null}: every leaf; every array of 0..K leaves (K=2 quick, 3 thorough); every map {} / one entry keyed by each of the 13 strings / entries for 4 key pairs (+2 key triples thorough); every depth-2 array (1..K children) and map (4 single keys, 2 key pairs) with at least one container child, children taken from a reduced leaf set (6 quick, 8 thorough) and all depth-1 containers over it; csv tables as arrays of flat objects: 1 column (13 headers) x 1..2 rows of cells from the 13 strings and 2 columns (6 header pairs) x 1..2 rows over 9 of them (thorough: all 13, and also 3 rows over 7 cells). Each document is written to the json-typed stdin of `format F -> format json` for F = yaml (always), toml (top-level maps), jsonl (top-level arrays), csv (tables); stdout must decode (encoding/json, numbers as float64) to the same value. Not asserted, run for no-panic/termination only and counted: yaml top-level null, toml with null or a heterogeneous array, jsonl empty array or null line, csv empty table. non-trivial = the document contains a string leaf or key other than the plain words a/h/k (i.e. something that needs format-specific quoting)",
 		Run:    run,
 		Replay: replay,
 		Assumptions: []string{
